@@ -79,19 +79,21 @@ fn view_of_instance(run: &Run<'_>) -> View {
 fn own_view(run: &Run<'_>) -> View {
     let d = run.node.inst.default_ds();
     let q = d.clock_quality;
+    // the local clock's time properties as the instance was constructed with them
+    let gnss = run.cfg.node.gnss_time;
     View {
         gm: d.clock_identity.0,
         q: (q.clock_class, q.clock_accuracy.to_primitive(), q.offset_scaled_log_variance),
         p1: d.priority_1,
         p2: d.priority_2,
         steps: 0,
-        utc: None,
-        leap61: false,
+        utc: if gnss { Some(37) } else { None },
+        leap61: gnss,
         leap59: false,
-        ptp: true,
-        time_tr: false,
-        freq_tr: false,
-        source: 0xa0,
+        ptp: gnss,
+        time_tr: gnss,
+        freq_tr: gnss,
+        source: if gnss { 0x20 } else { 0xa0 },
     }
 }
 
@@ -111,6 +113,9 @@ fn norm(mut v: View) -> View {
 pub struct AnnSt {
     /// last Announce content delivered per (port, sender)
     last: Vec<(usize, Pid, View)>,
+    /// something has happened that lets the data sets differ from the instance's own attributes:
+    /// a port became slave, or the clock quality was changed (takes effect at the next BMCA run)
+    touched: bool,
 }
 
 pub struct AnnMon;
@@ -165,6 +170,21 @@ impl Monitor for AnnMon {
                 if m.hdr.flags[0] & !0 != 0 && m.hdr.flags[0] != 0 {
                     local.push(Violation { signature: "announce-flag-octet0".into(), message: format!("{:#x}", m.hdr.flags[0]), replay: json!(null) });
                 }
+            }
+        }
+        // O0: from construction until the first port becomes slave or the quality is changed, the
+        // instance is its own grandmaster and its data sets are its own attributes
+        if matches!(s.ev, Ev::Quality(_)) || s.after.iter().any(|x| matches!(x, PS::Slave)) {
+            st.touched = true;
+        }
+        if !st.touched {
+            let want = norm(own_view(run));
+            if want != inst {
+                local.push(Violation {
+                    signature: format!("initial-datasets-not-own-attributes:{}", first_diff(&inst, &want)),
+                    message: format!("no port has been slave and the quality was never changed, but the data sets say {:?}; own attributes are {:?}", inst, want),
+                    replay: json!(null),
+                });
             }
         }
         // O2/O3: the data sets equal what the hierarchy prescribes
@@ -235,7 +255,7 @@ impl Monitor for AnnMon {
     }
 
     fn key(&self, st: &AnnSt) -> String {
-        format!("{:?}", st.last)
+        format!("{:?}{}", st.last, st.touched)
     }
 }
 
@@ -329,6 +349,28 @@ pub fn systems() -> Vec<(WorldSys<'static, AnnMon>, (usize, usize))> {
                 .add(Ev::T(0, Timer::Announce))
                 .add(Ev::T(1, Timer::Announce))
                 .add(Ev::T(0, Timer::Receipt));
+            // the same instance fresh from construction, with a quality and priorities of its own
+            {
+                let mut cfg3 = WorldCfg { node: node.clone(), ..Default::default() };
+                cfg3.node.class = 6;
+                cfg3.node.accuracy = 0x21;
+                cfg3.node.variance = 0x4e5d;
+                cfg3.node.priority_1 = 90;
+                cfg3.node.priority_2 = 91;
+                cfg3.node.gnss_time = true;
+                cfg3.peers = vec![Peer::gm(3, 1), Peer::gm(4, 250)];
+                cfg3.qualities = vec![(7, 0x22, 0x4e5e), (200, 0x25, 0x1111)];
+                let alpha = Alpha::new()
+                    .add(Ev::Bmca)
+                    .add(Ev::Quality(0))
+                    .add(Ev::Ann(0, 0))
+                    .add(Ev::Ann(1, 1))
+                    .add(Ev::T(0, Timer::Announce))
+                    .add(Ev::T(1, Timer::Announce))
+                    .add(Ev::T(0, Timer::Receipt))
+                    .add(Ev::T(1, Timer::Receipt));
+                out.push((WorldSys { property: "C11", name: "gm-2p-fresh".into(), cfg: cfg3, seed: vec![], alphabet: alpha.0, obedient: false, monitor: &MON, macros: vec![] }, (5, 7)));
+            }
             out.push((
                 WorldSys {
                     property: "C11",
